@@ -20,7 +20,7 @@ BOXES = ("mixed", "mixed", "boxed", "narrow", "narrow", "lower", "upper", "boxed
 
 def floors(tier):
     return {"runs": 500, "points_checked": 5000, "evaluations_with_component_on_bound": 1500, "fd_runs": 150, "runs_with_bounds_object_edited_in_place": 60, "runs_with_nested_run": 60, "nested_runs": 100,
-            "runs_with_low_precision_start": 80, "restart_legs": 150, "runs_on_boxes_of_magnitude_1e20_and_more": 50, "runs_with_user_functions_working_in_place_on_their_argument": 80, "__nontrivial__": 200}
+            "runs_with_low_precision_start": 80, "restart_legs": 150, "runs_with_user_step_cap": 200, "runs_on_boxes_of_magnitude_1e20_and_more": 50, "runs_with_user_functions_working_in_place_on_their_argument": 80, "__nontrivial__": 200}
 
 
 def cases(tier, seed):
@@ -35,6 +35,8 @@ def cases(tier, seed):
         cfg["cb"] = "never"
         if i % 8 == 3:
             cfg["x0_dtype"] = str(gen.pick(rng, ["float32", "float32", "float16"]))  # a start vector of lower precision
+        if i % 5 == 1:
+            cfg["max_steplength"] = float(gen.pick(rng, [0.3, 1.0, 1.0, 2.0]))  # the user's cap on the step length
         if i % 7 == 5 and cfg["jac"] != "cs":
             cfg["hostile_user"] = True  # the user's functions work in place on the array they are handed (and leave garbage in it)
         spec = {"problem": ps, "cfg": cfg, "edit_bounds": bool(i % 6 == 0)}
@@ -117,6 +119,8 @@ def run(spec):
     if tr.exc is not None:
         out.count("runs_raised")
         out.count("raised:" + type(tr.exc).__name__)
+    if cfg.get("max_steplength") is not None:
+        out.count("runs_with_user_step_cap")
     if cfg.get("hostile_user"):
         out.count("runs_with_user_functions_working_in_place_on_their_argument")
     if spec.get("restart") and tr.result is not None and not out.violations:
